@@ -765,6 +765,7 @@ impl Point {
     /// order (least significant first). n is the curve order. Input k must
     /// be lower than n; input e is less than 2^128. Output is lower than
     /// or equal to e.
+    #[cfg_attr(pornin_crrl_verif_cut, inline(never))]
     fn mul_divr_rounded(k: &[u32; 8], e: &[u32; 4]) -> [u32; 4] {
         // We compute round(e*k/n) = floor((e*k + (n-1)/2)/n). Since
         // k < n < 2^256, we know that e*k + (n-1)/2 < 2^384.
